@@ -2,7 +2,8 @@
    Only statements, closed by `exact`, and their assumptions.  The facts in Generated/OrderKey.v are re-read from
    /repo (meta_row.py, queries.py, data/ddl.sql, loaders/*.py, meta_table.py, sge_utils.py) on every run. *)
 From Coq Require Import Permutation.
-From VV Require Import Model.Base Model.Views Model.Unique Model.Order Model.ParseList Generated.OrderKey Proofs.OrderProofs Proofs.ParseListProofs.
+From VV Require Import Model.Base Model.Pattern Model.Mutators Model.Views Model.Unique Model.Order Model.ParseList Model.Refusal Model.ParseMutators
+  Generated.OrderKey Proofs.OrderProofs Proofs.ParseListProofs Proofs.ParseMutatorsProofs.
 
 (* a stable sort by a total preorder gives the same list for every arrival order of the rows, provided rows that
    compare equal are equal *)
@@ -54,9 +55,20 @@ Theorem C12_parse_mutators_canonical : forall ws ws',
   sort_dedup (parse_list (join_comma (map written ws))) = sort_dedup (parse_list (join_comma (map written ws'))).
 Proof. exact parse_mutators_canonical. Qed.
 
+(* the mutators configured for a group are the parsed codes, none twice - also when a duplicate is written in the other documented
+   spelling of a parametric deletion (2del next to 2del0): duplicates are removed after parsing as well (defect repaired in 3846a61) *)
+Theorem C12_parse_mutators_NoDup : forall s ks, parse_mutators s = Ok ks -> NoDup ks.
+Proof. exact parse_mutators_NoDup. Qed.
+Theorem C12_parse_mutators_exact : forall s ks, parse_mutators s = Ok ks ->
+  forall k, In k ks <-> exists code, In code (parse_list s) /\ parse_label code = Ok k.
+Proof. exact parse_mutators_exact. Qed.
+Example C12_parse_mutators_example :
+  parse_mutators " 2del0, snv,2del ,1del0, 1del,snv" = Ok [MDelK 1 0; MDelK 2 0; MSnv].
+Proof. vm_compute. reflexivity. Qed.
+
 (* the places that rely on it are still written that way in the source *)
 Theorem C12_sources_ordered :
-  parse_mutators_sorted_set = true /\ parse_list_strips = true /\ targeton_name_sorted_ids = true /\
+  parse_mutators_sorted_set = true /\ parse_mutators_dedups_parsed = true /\ parse_list_strips = true /\ targeton_name_sorted_ids = true /\
   unique_names_sorted = true /\ sgrna_concat_grouped = true /\ sgrna_concat_order = ["t.sgrna_id"]%string /\
   ppes_with_offset_order = ["ppe_start"]%string /\ hd EmptyString background_variants_order = "start"%string /\
   overlapping_background_order = ["start"; "ref"; "alt"]%string.
@@ -90,6 +102,8 @@ Print Assumptions C12_meta_rows_deterministic.
 Print Assumptions C12_sort_dedup_canonical.
 Print Assumptions C12_parse_list_spacing.
 Print Assumptions C12_parse_mutators_canonical.
+Print Assumptions C12_parse_mutators_NoDup.
+Print Assumptions C12_parse_mutators_exact.
 Print Assumptions C12_sources_ordered.
 Print Assumptions C12_unique_name_order_free.
 Print Assumptions C12_softmask_invariant.
